@@ -2,8 +2,8 @@ pub mod client {
     use std::net::SocketAddr;
 
     use anyhow::Result;
+    use anyhow::anyhow;
     use anyhow::bail;
-    use futures::FutureExt;
     use futures::SinkExt;
     use futures::StreamExt;
     use tokio::net::TcpStream;
@@ -25,20 +25,20 @@ pub mod client {
         let mut writer = FramedWrite::new(wh, Socks5ClientEncoder);
         writer.send(Box::new(Socks5InitialRequest::new(vec![Socks5AuthMethod::NoAuth]))).await?;
         let mut reader = FramedRead::new(rh, Socks5InitialResponseDecoder);
-        let initial_response = reader.next().map(Option::unwrap).await?;
+        let initial_response = reader.next().await.ok_or_else(|| anyhow!("connection closed during the socks5 handshake"))??;
         if initial_response.auth_method != Socks5AuthMethod::NoAuth {
             bail!("proxy's auth method is not NO_AUTH");
         }
         writer.send(Box::new(Socks5CommandRequest::new(command_type, dst_addr.into()))).await?;
         let mut reader = FramedRead::new(reader.into_inner(), Socks5CommandResponseDecoder);
-        let command_response = reader.next().map(Option::unwrap).await?;
+        let command_response = reader.next().await.ok_or_else(|| anyhow!("connection closed during the socks5 handshake"))??;
         Ok(command_response)
     }
 }
 
 pub mod server {
     use anyhow::Result;
-    use futures::FutureExt;
+    use anyhow::anyhow;
     use futures::SinkExt;
     use futures::StreamExt;
     use tokio::net::TcpStream;
@@ -56,11 +56,11 @@ pub mod server {
     pub async fn no_auth(stream: &mut TcpStream, response: Socks5CommandResponse) -> Result<Socks5CommandRequest> {
         let (rh, wh) = stream.split();
         let mut reader = FramedRead::new(rh, Socks5InitialRequestDecoder);
-        reader.next().map(Option::unwrap).await?;
+        reader.next().await.ok_or_else(|| anyhow!("connection closed during the socks5 handshake"))??;
         let mut reader = FramedRead::new(reader.into_inner(), Socks5CommandRequestDecoder);
         let mut writer = FramedWrite::new(wh, Socks5ServerEncoder);
         writer.send(Box::new(Socks5InitialResponse::new(Socks5AuthMethod::NoAuth))).await?;
-        let command_request = reader.next().map(Option::unwrap).await?;
+        let command_request = reader.next().await.ok_or_else(|| anyhow!("connection closed during the socks5 handshake"))??;
         writer.send(Box::new(response)).await?;
         Ok(command_request)
     }
